@@ -416,7 +416,90 @@ def rule_r5(p, res):
             "image_coords_to_tcoords must be defined as the pseudoinverse of tcoords_to_image_coords (found `%s`)" % s[:60])
 
 
-RULES = [rule_r1, rule_r2, rule_r3, rule_r4, rule_r5]
+def _linform(e, names):
+    """linear form {name: coeff, '1': const} of an expression over the given names, or None"""
+    if isinstance(e, ast.Name) and e.id in names:
+        return {e.id: 1}
+    v = const_value(e)
+    if v is not None:
+        return {"1": v} if v else {}
+    if isinstance(e, ast.UnaryOp) and isinstance(e.op, ast.USub):
+        a = _linform(e.operand, names)
+        return None if a is None else {k: -c for k, c in a.items()}
+    if isinstance(e, ast.BinOp) and isinstance(e.op, (ast.Add, ast.Sub)):
+        a, b = _linform(e.left, names), _linform(e.right, names)
+        if a is None or b is None:
+            return None
+        out = dict(a)
+        for k, c in b.items():
+            out[k] = out.get(k, 0) + (c if isinstance(e.op, ast.Add) else -c)
+        return {k: c for k, c in out.items() if c}
+    if isinstance(e, ast.Subscript) and isinstance(e.value, ast.Name) and isinstance(e.slice, ast.Tuple) and len(e.slice.elts) == 2:
+        i, j = const_value(e.slice.elts[0]), const_value(e.slice.elts[1])
+        if i is not None and j is not None:
+            key = "%s[%d,%d]" % (e.value.id, min(i, j), max(i, j)) if names == "sym" else "%s[%d,%d]" % (e.value.id, i, j)
+            return {key: 1}
+    return None
+
+
+def rule_r6(p, res):
+    r = res.rule("C20.R6", "quaternion <-> matrix literals are the standard formulas (symmetric K matrix; rotation from q q^T)")
+    av = p.own_method("Rotation", "_as_vector")
+    fv = p.own_method("Rotation", "_from_vector_inplace")
+    r.instance(av)
+    r.instance(fv)
+    d = Defs(av.node)
+    ms = {}
+    for i in range(3):
+        for j in range(3):
+            v = d.single("m%d%d" % (i, j))
+            r.check(v is not None and norm(v) == "self.h_matrix[%d, %d]" % (i, j), av, av.node, "m%d%d must be entry (%d, %d) of the rotation" % (i, j, i, j))
+            ms["m%d%d" % (i, j)] = 1
+    K = d.of("K")
+    lit = [v for k, v, s in K if k == "assign"]
+    need(len(lit) == 1 and isinstance(lit[0], ast.Call) and lit[0].args and isinstance(lit[0].args[0], ast.List), "C20.R6: K matrix literal not found")
+    rows = lit[0].args[0].elts
+    need(len(rows) == 4 and all(isinstance(x, ast.List) and len(x.elts) == 4 for x in rows), "C20.R6: K must be a 4x4 literal")
+    want = [
+        [{"m00": 1, "m11": -1, "m22": -1}, {}, {}, {}],
+        [{"m01": 1, "m10": 1}, {"m11": 1, "m00": -1, "m22": -1}, {}, {}],
+        [{"m02": 1, "m20": 1}, {"m12": 1, "m21": 1}, {"m22": 1, "m00": -1, "m11": -1}, {}],
+        [{"m21": 1, "m12": -1}, {"m02": 1, "m20": -1}, {"m10": 1, "m01": -1}, {"m00": 1, "m11": 1, "m22": 1}],
+    ]
+    for i in range(4):
+        for j in range(4):
+            got = _linform(rows[i].elts[j], set(ms))
+            r.check(got == want[i][j], av, rows[i].elts[j], "entry (%d, %d) of the quaternion matrix K is `%s`; the symmetric-K formula needs %s: the extracted quaternion has a wrong component "
+                    "for rotations about some axes" % (i, j, norm(rows[i].elts[j]), want[i][j]), {"K": [i, j], "entry": norm(rows[i].elts[j])})
+    s = norm(av.node)
+    r.check("K /= 3.0" in s and "w, V = np.linalg.eigh(K)" in s and "q = V[[3, 0, 1, 2], np.argmax(w)]" in s, av, av.node, "the quaternion is the eigenvector of K/3 of largest eigenvalue, reordered to (w, x, y, z)")
+    r.check(any((not pol) is False and norm(t) == "q[0] < 0.0" for t, pol, n_ in __import__("menpolint.astutil", fromlist=["x"]).raising_ifs(av.node)) or "if q[0] < 0.0:\n            q = -q" in s, av, av.node,
+            "the quaternion must be made canonical (non-negative scalar part) by negation")
+    # quaternion -> matrix
+    dv = Defs(fv.node)
+    rot = [v for k, v, s_ in dv.of("rotation") if k == "assign"]
+    need(len(rot) == 1 and isinstance(rot[0], ast.Call) and rot[0].args and isinstance(rot[0].args[0], ast.List), "C20.R6: rotation literal not found")
+    rr = rot[0].args[0].elts
+    need(len(rr) == 3 and all(isinstance(x, ast.List) and len(x.elts) == 3 for x in rr), "C20.R6: rotation literal must be 3x3")
+    P_ = fv.params[1]
+    wantm = [
+        [{"1": 1.0, "%s[2,2]" % P_: -1, "%s[3,3]" % P_: -1}, {"%s[1,2]" % P_: 1, "%s[0,3]" % P_: -1}, {"%s[1,3]" % P_: 1, "%s[0,2]" % P_: 1}],
+        [{"%s[1,2]" % P_: 1, "%s[0,3]" % P_: 1}, {"1": 1.0, "%s[1,1]" % P_: -1, "%s[3,3]" % P_: -1}, {"%s[2,3]" % P_: 1, "%s[0,1]" % P_: -1}],
+        [{"%s[1,3]" % P_: 1, "%s[0,2]" % P_: -1}, {"%s[2,3]" % P_: 1, "%s[0,1]" % P_: 1}, {"1": 1.0, "%s[1,1]" % P_: -1, "%s[2,2]" % P_: -1}],
+    ]
+    for i in range(3):
+        for j in range(3):
+            got = _linform(rr[i].elts[j], "sym")
+            r.check(got == wantm[i][j], fv, rr[i].elts[j], "entry (%d, %d) of the rotation built from the quaternion is `%s`, the standard formula needs %s" % (i, j, norm(rr[i].elts[j]), wantm[i][j]),
+                    {"R": [i, j], "entry": norm(rr[i].elts[j])})
+    s2 = norm(fv.node)
+    r.check("%s = %s * np.sqrt(2.0 / n)" % (P_, P_) in s2 and "%s = np.outer(%s, %s)" % (P_, P_, P_) in s2 and "n = np.dot(%s, %s)" % (P_, P_) in s2, fv, fv.node, "the quaternion is normalised to q sqrt(2/|q|^2) and expanded to q q^T")
+    q = p.own_method("Rotation", "init_3d_from_quaternion")
+    r.instance(q)
+    r.check("r = cls.init_identity(n_dims=3)" in norm(q.node) and "return r.from_vector(%s)" % q.params[1] in norm(q.node), q, q.node, "init_3d_from_quaternion = identity.from_vector(q)")
+
+
+RULES = [rule_r1, rule_r2, rule_r3, rule_r4, rule_r5, rule_r6]
 
 WITNESSES = [
     Witness("C20.W1", "menpo/transform/homogeneous/rotation.py", "Rotation.init_from_3d_ccw_angle_around_y",
@@ -446,6 +529,10 @@ WITNESSES = [
             rule="C20.R2", construct="_axis_and_angle_of_rotation_3d", note="seeded change C20-A"),
     Witness("C20.T2", "menpo/transform/homogeneous/rotation.py", "Rotation._axis_and_angle_of_rotation_3d",
             "angle_of_rotation = np.arccos(np.dot(transformed_vector, perpendicular_vector))", "angle_of_rotation = np.arccos(np.clip(np.dot(transformed_vector, perpendicular_vector), -1.0, 1.0))", kind="T"),
+    Witness("C20.W12", "menpo/transform/homogeneous/rotation.py", "Rotation._as_vector", "[m21 - m12, m02 - m20, m10 - m01, m00 + m11 + m22]", "[m21 - m12, m02 - m20, m01 - m10, m00 + m11 + m22]",
+            rule="C20.R6", construct="Rotation._as_vector", note="seeded change R2-C20-A"),
+    Witness("C20.W13", "menpo/transform/homogeneous/rotation.py", "Rotation._from_vector_inplace", "[p[1, 2] + p[3, 0], 1.0 - p[1, 1] - p[3, 3], p[2, 3] - p[1, 0]]", "[p[1, 2] + p[3, 0], 1.0 - p[1, 1] - p[3, 3], p[2, 3] + p[1, 0]]",
+            rule="C20.R6", construct="Rotation._from_vector_inplace"),
     Witness("C20.T1", "menpo/transform/tcoords.py", "tcoords_to_image_coords",
             "invert_unit_y.compose_before(flip_xy_yx).compose_before(Scale(np.array(image_shape) - 1))",
             "Scale(np.array(image_shape) - 1).compose_after(flip_xy_yx.compose_after(invert_unit_y))", kind="T"),
